@@ -141,12 +141,14 @@ template <int K, size_t BND> static void trunc_h()
     vf_assume(t < vf_stream_len(os));
     std::istream * is = vf_istream_from(os, t, VF_NEVER);
     bool threw = false;
+    size_t live0 = vf_heap_live();
     try {
         field<B> g(*is);
     } catch (...) {
         threw = true;
     }
     vf_assert(threw, 1);
+    vf_assert(vf_heap_live() == live0, 2);      // the rejected load leaves nothing behind
     vf_observe_u64(threw);
 }
 
@@ -173,12 +175,14 @@ template <int K, size_t BND> static void word_h()
     }
     vf_stream_set_u32(is, pos, repl);
     bool threw = false;
+    size_t live0 = vf_heap_live();
     try {
         field<B> g(*is);
     } catch (...) {
         threw = true;
     }
     vf_assert(threw, 1);
+    vf_assert(vf_heap_live() == live0, 2);
     vf_observe_u64(w);
 }
 
@@ -218,12 +222,14 @@ template <int K, size_t BND> static void failat_h()
     vf_assume(n < reads);
     std::istream * is = vf_istream_from(os, vf_stream_len(os), n);
     bool threw = false;
+    size_t live0 = vf_heap_live();
     try {
         field<B> g(*is);
     } catch (...) {
         threw = true;
     }
     vf_assert(threw, 1);
+    vf_assert(vf_heap_live() == live0, 2);
     vf_observe_u64(reads);
 }
 
